@@ -52,6 +52,7 @@ type Property struct {
 	Level string
 	Rule  string // how cases are generated and what makes one non-trivial
 	Race  bool   // also run under the race detector build
+	Instr bool   // also run against the copy of the library with inserted yield points
 	// Gen draws a scenario from the tape.
 	Gen func(t *Tape, tier string) *Scenario
 	// Check evaluates the oracles.
@@ -122,7 +123,11 @@ type Failure struct {
 	Shrunk   int            `json:"shrink_executions"`
 	File     string         `json:"file,omitempty"`
 	Regen    bool           `json:"regen,omitempty"`
+	Instr    bool           `json:"instr,omitempty"` // found in the build with inserted yield points; replays only there
 }
+
+// instrTier: this process runs the build of the library into which verifctl has inserted yield points.
+var instrTier = os.Getenv("VERIF_INSTR") != ""
 
 // WorkerResult is what one worker process reports.
 type WorkerResult struct {
@@ -159,9 +164,55 @@ var curRunStart atomic.Int64
 // rlog is the race detector's log (race build only).
 var rlog *raceLog
 
+// genScenario draws the scenario of one run. In the build with inserted yield points
+// (instr tier) the tape also says at which of them the run parks.
+func genScenario(p *Property, t *Tape, tier string) *Scenario {
+	sc := p.Gen(t, tier)
+	sites := autoSites()
+	if !instrTier || !p.Instr || len(sites) == 0 {
+		return sc
+	}
+	// The build with yield points in front of every statement of server.go and conn.go at
+	// which no mutex can be held: the run parks at one of them every time it is passed, or at
+	// a drawn subset of all of them - so that Close, Shutdown, the Accept loop, the connection
+	// goroutines and the deliveries can get in between any two statements of each other.
+	a := &AutoYieldCfg{}
+	if t.Bool() {
+		pool := sites
+		if t.Bool() {
+			// the life cycle of the server and of a connection: Serve, handleConn, Close, Shutdown, stop
+			pool = nil
+			for _, s := range sites {
+				if strings.HasPrefix(s, "@server.go:") {
+					pool = append(pool, s)
+				}
+			}
+		}
+		a.Site = pool[t.Intn(len(pool))]
+		a.Park = Dur(1+t.Intn(12)) * 250 * time.Microsecond
+		sc.Strata = append(sc.Strata, "inserted-yield/one-site")
+	} else {
+		a.Salt = uint64(t.Intn(1 << 20))
+		a.Mod = []int{3, 6, 12, 24, 48}[t.Intn(5)]
+		a.Park = Dur(1+t.Intn(6)) * 100 * time.Microsecond
+		sc.Strata = append(sc.Strata, "inserted-yield/subset")
+	}
+	sc.AutoYield = a
+	for i := range sc.Admin {
+		// A Shutdown held up at yield points for longer than its deadline finds both its
+		// context expired and the connections finished: which of the two its select reports is
+		// the runtime's pseudo-random choice, not the schedule's. Short deadlines stay with the
+		// builds without inserted yield points.
+		if sc.Admin[i].Kind == aShutdown && sc.Admin[i].Timeout > 0 && sc.Admin[i].Timeout < 50*time.Millisecond {
+			sc.Admin[i].Timeout = 50 * time.Millisecond
+		}
+	}
+	return sc
+}
+
 // execute generates, runs and judges one tape.
 func execute(t *testing.T, p *Property, tape *Tape, tier string) execResult {
-	sc := p.Gen(tape, tier)
+	sc := genScenario(p, tape, tier)
 	if sc.Srv.TLS != tlsNone {
 		cryptotest.SetGlobalRandom(t, hashTape(tape))
 	}
@@ -237,7 +288,7 @@ func WorkerMain(t *testing.T) {
 		os.Exit(2)
 	}
 	if os.Getenv("VERIF_META") != "" {
-		m := map[string]interface{}{"level": p.Level, "rule": p.Rule, "real": p.Real, "stub": p.Stub, "assumptions": p.Assumptions, "race": p.Race, "exhaustive": p.Expand != nil, "required": p.Required}
+		m := map[string]interface{}{"level": p.Level, "rule": p.Rule, "real": p.Real, "stub": p.Stub, "assumptions": p.Assumptions, "race": p.Race, "instr": p.Instr, "exhaustive": p.Expand != nil, "required": p.Required}
 		b, _ := json.Marshal(m)
 		fmt.Printf("META:%s\n", b)
 		return
@@ -329,8 +380,12 @@ func WorkerMain(t *testing.T) {
 			save := func(f *Failure) {
 				f.Seed, f.Run, f.Tier = seed, run, tier
 				f.Known = kid
+				f.Instr = instrTier
 				if replayDir != "" {
 					name := fmt.Sprintf("%s-%s-s%d-r%d.json", propID, sanitizeName(v.Rule), seed, run)
+					if instrTier {
+						name = fmt.Sprintf("%s-%s-instr-s%d-r%d.json", propID, sanitizeName(v.Rule), seed, run)
+					}
 					f.File = filepath.Join(replayDir, name)
 					b, _ := json.MarshalIndent(f, "", " ")
 					os.WriteFile(f.File, b, 0o644)
@@ -596,7 +651,7 @@ func minimise(t *testing.T, p *Property, tape *Tape, tier string, v Violation, k
 		// The detector reports a given race once per process, so the run cannot be
 		// re-executed here: report the original tape (it replays in a fresh process).
 		tp := ReplayTape(best, over)
-		sc := p.Gen(tp, tier)
+		sc := genScenario(p, tp, tier)
 		return &Failure{Property: p.ID, Rule: v.Rule, Detail: v.Detail, Witness: v.Witness, Tape: best, Over: over, Scenario: sc.Describe(), History: strings.Split(v.Detail, "\n"), Digest: "race"}
 	}
 	execs := 0
@@ -856,6 +911,9 @@ func (h *History) lines() []rline {
 			add(a.RetAt, classAdmin+i, "A", fmt.Sprintf("admin%d returned err=%q panic=%q", i, a.Err, a.Panic))
 		}
 	}
+	for _, a := range h.AutoParks {
+		ls = append(ls, rline{at: a.At, actor: 250, sub: int(hash64(a.Site) % 1000000), seq: len(ls), text: "parks at inserted yield point " + a.Site, kind: "Y"})
+	}
 	if h.ServeReturned {
 		add(h.ServeAt, classListen, "serve", fmt.Sprintf("Serve returned err=%q", h.ServeErr))
 	}
@@ -928,6 +986,27 @@ func (h *History) Shape() string {
 
 // commonFaultCounts counts the faults that actually fired in a run.
 func commonFaultCounts(sc *Scenario, h *History, st *Stats) {
+	if len(h.AutoParks) > 0 {
+		st.Faults["park_at_inserted_yield_point"] += len(h.AutoParks)
+		seen := map[string]bool{}
+		for _, a := range h.AutoParks {
+			// "@file:Func:n" -> Func
+			f := a.Site
+			if i := strings.Index(f, ":"); i >= 0 {
+				f = f[i+1:]
+			}
+			if i := strings.LastIndex(f, ":"); i >= 0 {
+				f = f[:i]
+			}
+			if !seen[f] {
+				seen[f] = true
+				st.Probes["parked_inside:"+f]++
+			}
+		}
+	}
+	if h.AutoSkipped > 0 {
+		st.Probes["inserted_yield_point_passed_with_a_mutex_held_no_park"] += h.AutoSkipped
+	}
 	for i, c := range h.Conns {
 		if c == nil {
 			continue
